@@ -19,6 +19,9 @@ def plan(pid, tier):
     # the 17-/24-/32-column archetypes (build with 32_components): heap-owning, zero-sized Drop and tracked types as last columns
     if pid in ("C01", "C02", "C04", "C06", "C07", "C09", "C12", "C13"):
         legs.append(hx_leg("SC32", features=("32_components",), props=[pid] + (["C01", "C02"] if pid == "C13" else []), **(dict(drop_world=True) if pid in ("C04", "C13") else {})))
+    # whole-population sweeps at sizes straddling 2^16 and 2^20 (thorough: 2^24 too): index-width and size-threshold behaviour
+    if pid in ("C01", "C02", "C06", "C07", "C08", "C12", "C13"):
+        legs.append(hx_leg("POP", sizes=[65537, 1048577] + ([] if tier == "quick" else [16777216])))
     return legs
 
 
